@@ -2,7 +2,7 @@
 import os
 import vlib, engine_common as ec
 
-TB = ["Print Assumptions: C03_core_once, C03_core_justified, C03_core_justified_unguarded_refuted, C03_fw_once closed under the global context",
+TB = ["Print Assumptions: C03_core_once, C03_core_justified, C03_core_justified_unguarded_refuted, C03_fw_once, C03_model_once, C03_model_justified closed under the global context",
       "the theorems are about Engine/Core.v (inputs + Normal queries); executions of firewalls / projections / external inputs are judged on the real engine by the harness (justification of every executor invocation from its own record of previous reads) and compared with the full model, not proved (partial)",
       "the former finding c03_projection_changeback (repaired in /repo, 2e5f36f) is replayed from witness/c03_changeback.txt on every run and must stay clean",
       ] + ec.ENGINE_TB
@@ -17,8 +17,8 @@ def run(ctx):
             ("layered", "mem", 900 if quick else 12000, "failures"),
             ("layered", "db:2", 300 if quick else 3000, "failures"),
             ("all", "mem", 500 if quick else 8000, "graded_failures"),
-            ("tfc", "mem", 300 if quick else 5000, "failures"),
-            ("ptfc", "mem", 300 if quick else 5000, "failures")]
+            ("tfc", "mem", 300 if quick else 2000, "failures"),
+            ("ptfc", "mem", 300 if quick else 2000, "failures")]
     total, dis_all, dists, real_fail, samples, hist_total, changeback = 0, [], {}, [], [], 0, []
     execs = noexec = 0
     for k, (mode, cfg, n, fn) in enumerate(runs):
